@@ -17,7 +17,7 @@ func init() {
 		ID:    "C08",
 		Title: "Criteria mean the same with or without indexes and pruning",
 		Decides: "the Bloom filter probes the same (word, bit) sequence when adding and when testing an item (canonical SSA expressions of the probe index, the mask and the probe count are equal); part pruning by time / key range discards a part exactly when its range is disjoint from the query range, over every ordering of the four endpoints; " +
-			"every place that dispatches on a criteria operator handles the same operator set (index filter builders, in-scan tag filters, inverted-index query builder, secondary-index tag filter); the trace-id part filter skips a part only when no requested id may be contained; block/primary-block time bounds are maintained as running min/max against their own accumulator, and a function that re-arms an accumulator's first-value guard also resets or consumes that accumulator (a part-level range is not restarted per primary block); the primary-block search of measure, stream and trace part iterators starts at the block that may hold the head of a straddling series (predicate: key <= first key; result n-1); the stream element index accumulates the id list and the timestamp list of every matching series together.",
+			"every place that dispatches on a criteria operator handles the same operator set (index filter builders, in-scan tag filters, inverted-index query builder, secondary-index tag filter); the trace-id part filter skips a part only when no requested id may be contained; block/primary-block time bounds are maintained as running min/max against their own accumulator, and a function that re-arms an accumulator's first-value guard also resets or consumes that accumulator (a part-level range is not restarted per primary block); the primary-block search of measure, stream and trace part iterators starts at the block that may hold the head of a straddling series (predicate: key <= first key; result n-1); the stream element index accumulates the id list and the timestamp list of every matching series together.; (stream skipping index) a block ruled out by the block filter advances the iterator by one block, never to the next series; the dictionary of an array-typed tag is never installed as a block filter; block filters are probed with the literal's stored encoding (Bytes), never its display text; every filter node handed out as index.Filter declares ShouldSkip / Execute itself (no method satisfied only by a nil embedded interface); an OR node is not built from a DummyFilter operand ('true OR x' is true); the dictionary filter's stored values are never mutated while being consulted",
 		NotDecided: "that the rows selected are exactly those satisfying the predicate, analyzer/tokenizer semantics of the inverted index, the block-level searches inside a primary block (findBlock).",
 		Technique:  "canonical symbolic expression equality between sibling functions (E8), relational world pruning on range endpoints, case-set agreement across packages, guarded accumulator updates; truth table of the binary-search predicate; per-iteration path enumeration with phi resolution (two accumulators move together); re-arm/consume agreement of first-value guards",
 		Run:        runC08,
@@ -490,6 +490,212 @@ func runC08(c *core.Ctx) {
 			}
 		}
 
+		// the dictionary filter's stored values are read-only: its membership tests never hand them to an in-place
+		// decoder (UnmarshalVarArray un-escapes in place) nor write into them — a second probe must see the same bytes
+		{
+			rule := "c08.dictionary-values-read-only"
+			var flowsFrom func(v ssa.Value, root func(ssa.Value) bool, d int) bool
+			flowsFrom = func(v ssa.Value, root func(ssa.Value) bool, d int) bool {
+				if d > 14 || v == nil {
+					return false
+				}
+				if root(v) {
+					return true
+				}
+				return anyOperand(v, func(o ssa.Value) bool { return flowsFrom(o, root, d+1) })
+			}
+			// mutating sink reached by a value derived from root, in fn or (depth-bounded) in the module callees it is passed to
+			var mutates func(fn *ssa.Function, root func(ssa.Value) bool, depth int) ssa.Instruction
+			mutates = func(fn *ssa.Function, root func(ssa.Value) bool, depth int) ssa.Instruction {
+				if fn == nil || fn.Blocks == nil {
+					return nil
+				}
+				for _, in := range ssax.FindDeep(fn, func(ssa.Instruction) bool { return true }) {
+					switch x := in.(type) {
+					case *ssa.Call:
+						nmc := ssax.CalleeName(x.Common())
+						derivedArg := -1
+						for i, a := range x.Call.Args {
+							if flowsFrom(a, root, 0) {
+								derivedArg = i
+								break
+							}
+						}
+						if derivedArg < 0 {
+							continue
+						}
+						if strings.Contains(nmc, "UnmarshalVarArray") || strings.HasPrefix(nmc, "pkg/encoding/vararray.Unmarshal") {
+							return in
+						}
+						if b, ok := x.Call.Value.(*ssa.Builtin); ok && b.Name() == "copy" && derivedArg == 0 {
+							return in
+						}
+						if cal := x.Call.StaticCallee(); cal != nil && depth > 0 && strings.HasPrefix(ssax.FuncName(cal), "(*pkg/filter.") && derivedArg < len(cal.Params) {
+							p := cal.Params[derivedArg]
+							if bad := mutates(cal, func(v ssa.Value) bool { return v == ssa.Value(p) }, depth-1); bad != nil {
+								return bad
+							}
+						}
+					case *ssa.Store:
+						if ia, ok := x.Addr.(*ssa.IndexAddr); ok && flowsFrom(ia.X, root, 0) {
+							return in
+						}
+					}
+				}
+				return nil
+			}
+			isValues := func(v ssa.Value) bool { fv := ssax.FieldOf(v); return fv != nil && fv.Name() == "values" }
+			for _, f := range r.P.ModuleFuncs("pkg/filter") {
+				if f.Signature.Recv() == nil || !strings.HasSuffix(f.Signature.Recv().Type().String(), "filter.DictionaryFilter") {
+					continue
+				}
+				reads := false
+				for _, b := range f.Blocks {
+					for _, in := range b.Instrs {
+						if fa, ok := in.(*ssa.FieldAddr); ok && isValues(fa) {
+							reads = true
+						}
+					}
+				}
+				nm := f.Name()
+				if !reads || nm == "Set" || nm == "Reset" || nm == "reset" {
+					continue // Set/Reset replace the values; everything else only consults them
+				}
+				construct := ssax.FuncName(f) + ": stored dictionary values are not mutated"
+				if bad := mutates(f, isValues, 3); bad != nil {
+					r.Violate(rule, construct, r.pos(bad), "the stored dictionary bytes are modified while being consulted (in-place un-escaping / element write): the next value probed in the same call, or the next call on the same filter, sees different arrays and a block holding a matching row is pruned")
+				} else {
+					r.Hold(rule, construct, r.fpos(f), "")
+				}
+			}
+			r.Floor(rule, 2)
+		}
+
+		// filter nodes answer the block-level question themselves: no method of index.Filter is satisfied only by
+		// promotion from an embedded interface field that no constructor ever sets (calling it dereferences nil)
+		{
+			rule := "c08.filter-nodes-implement-shouldskip"
+			var iface *types.Interface
+			if ip := r.P.Pkg("pkg/index"); ip != nil && ip.Types != nil {
+				if o := ip.Types.Scope().Lookup("Filter"); o != nil {
+					iface, _ = o.Type().Underlying().(*types.Interface)
+				}
+			}
+			n := 0
+			for _, pkRel := range []string{"pkg/query/logical/stream", "pkg/query/logical/trace", "pkg/query/logical/measure", "pkg/query/logical"} {
+				pk := r.P.Pkg(pkRel)
+				if pk == nil || pk.Types == nil || iface == nil {
+					continue
+				}
+				// embedded fields that some function assigns (then the promoted method has a target)
+				assigned := map[*types.Var]bool{}
+				used := map[string]bool{} // concrete types that are actually converted to an interface value (handed out as a filter)
+				for _, f := range r.P.ModuleFuncs(pkRel) {
+					for _, b := range f.Blocks {
+						for _, in := range b.Instrs {
+							if mi, ok := in.(*ssa.MakeInterface); ok && strings.HasSuffix(mi.Type().String(), "pkg/index.Filter") {
+								t := mi.X.Type()
+								if p, isP := t.(*types.Pointer); isP {
+									t = p.Elem()
+								}
+								if nt, isN := t.(*types.Named); isN {
+									used[nt.Obj().Name()] = true
+								}
+							}
+							if st, ok := in.(*ssa.Store); ok {
+								if fv := ssax.FieldOf(st.Addr); fv != nil && fv.Embedded() && !ssax.IsNilConst(st.Val) {
+									assigned[fv] = true
+								}
+							}
+						}
+					}
+				}
+				sc := pk.Types.Scope()
+				for _, name := range sc.Names() {
+					tn, ok := sc.Lookup(name).(*types.TypeName)
+					if !ok {
+						continue
+					}
+					st, ok := tn.Type().Underlying().(*types.Struct)
+					if !ok {
+						continue
+					}
+					ptr := types.NewPointer(tn.Type())
+					if !used[name] || !types.Implements(ptr, iface) && !types.Implements(tn.Type(), iface) {
+						continue
+					}
+					ms := types.NewMethodSet(ptr)
+					for i := 0; i < iface.NumMethods(); i++ {
+						m := iface.Method(i)
+						sel := ms.Lookup(m.Pkg(), m.Name())
+						if sel == nil {
+							continue
+						}
+						n++
+						construct := fmt.Sprintf("%s.%s answers %s itself", pkRel, name, m.Name())
+						if len(sel.Index()) == 1 {
+							r.Hold(rule, construct, r.P.Position(tn.Pos()), "declared on the type")
+							continue
+						}
+						emb := st.Field(sel.Index()[0])
+						if _, isIface := emb.Type().Underlying().(*types.Interface); !isIface || assigned[emb] {
+							r.Hold(rule, construct, r.P.Position(tn.Pos()), "promoted from an embedded value that is assigned")
+							continue
+						}
+						if m.Name() != "ShouldSkip" && m.Name() != "Execute" {
+							r.Hold(rule, construct, r.P.Position(tn.Pos()), "promoted; not called by the scan")
+							continue
+						}
+						r.Violate(rule, construct, r.P.Position(tn.Pos()), fmt.Sprintf("%s is only promoted from the embedded %s field, which no function of the package ever sets: the block scan calls it on every block and dereferences nil (the query fails with a panic on every attempt)", m.Name(), emb.Name()))
+					}
+				}
+			}
+			r.Floor(rule, 12)
+			_ = n
+		}
+
+		// block filters are probed with the STORED encoding of the literal (LiteralExpr.Bytes: 8-byte ints, raw array
+		// elements), never with its display text (String: "500", "[a b]"), which the writer never put into them
+		{
+			rule := "c08.block-filter-probe-encoding"
+			n := 0
+			for _, pkRel := range probeEncodingPkgs {
+				for _, f := range r.P.ModuleFuncs(pkRel) {
+					for _, in := range ssax.Find(f, func(in ssa.Instruction) bool {
+						cc := ssax.Common(in)
+						if cc == nil {
+							return false
+						}
+						nm := ssax.CalleeName(cc)
+						return nm == "iface:(pkg/index.FilterOp).Eq" || nm == "iface:(pkg/index.FilterOp).Having"
+					}) {
+						n++
+						arg := ssax.Common(in).Args[1]
+						construct := fmt.Sprintf("%s: probe #%d of the block filter uses the stored encoding", ssax.FuncName(f), n)
+						display := flowsFromCallWhere(arg, func(c *ssa.Call) bool {
+							nm := ssax.CalleeName(c.Common())
+							if !strings.HasSuffix(nm, ").String") {
+								return false
+							}
+							var recv ssa.Value
+							if c.Call.IsInvoke() {
+								recv = c.Call.Value
+							} else if len(c.Call.Args) > 0 {
+								recv = c.Call.Args[0]
+							}
+							return recv != nil && strings.Contains(recv.Type().String(), "pkg/query/logical.")
+						}, 0)
+						if display {
+							r.Violate(rule, construct, r.pos(in), "the probe is the literal's display text (Expr.String()): for int, int-array and array literals it differs from the bytes the writer fed the bloom filter / dictionary, MightContain answers false and every block is pruned — the query returns nothing although the same query without the index rule returns the rows")
+						} else {
+							r.Hold(rule, construct, r.pos(in), "")
+						}
+					}
+				}
+			}
+			r.Floor(rule, 1)
+		}
+
 		// stream element index: the matched element ids and the matched timestamps are accumulated together
 		if f := r.fn("c08.search-lists-together", sibS.pkg, "(*elementIndex).Search"); f != nil {
 			rule := "c08.search-lists-together"
@@ -705,3 +911,6 @@ func guardFields(v ssa.Value) []string {
 	walk(v, 0)
 	return out
 }
+
+// probeEncodingPkgs: planner packages whose filter nodes probe per-block tag filters.
+var probeEncodingPkgs = []string{"pkg/query/logical/stream"}
